@@ -9,8 +9,16 @@ from lunaverif.ref import g9_device_model as M
 
 PROPERTY = "C08"
 ASSUMPTIONS = [
-    "full-speed device on a bare UTMI bus; one device on the bus (host ACKs addressed to other devices are not "
-    "generated)",
+    "full-speed device on a bare UTMI bus; transactions of the host with OTHER devices on the same bus are generated "
+    "as a device behind a hub sees them (IN token for a foreign address, idle bus while that device answers "
+    "upstream, the host's ACK; OUT/SETUP token + data for a foreign address)",
+    "other-device ACKs are generated everywhere, also after an un-acknowledged status-stage ZLP of this device's "
+    "SET_ADDRESS / SET_CONFIGURATION (a known finding with its own signature, see KNOWN_SHAPE); the judged history "
+    "ends at the first such event (later divergence is attributed to it)",
+    "the host does not ACK another device's data while an un-acknowledged data packet of another IN endpoint of "
+    "this device (or of an endpoint-0 data stage) may be outstanding: a handshake carries no address and tokens "
+    "for other addresses are filtered out, so every IN endpoint takes that ACK (C11 / C17 own that and assume the "
+    "same)",
     "a bus reset is SE0 on line_state for >= 305 cycles (the sequencer fires after 300); SE0 of <= 40 cycles must "
     "not reset; lengths in between are not generated",
     "nothing is assumed about data toggles across a bus reset (the first packet after one may carry either PID)",
@@ -27,9 +35,25 @@ def set_request():
     return st.one_of(ADDR_VALUES.map(lambda a: [0, 5, a, 0, 0]), CFG_VALUES.map(lambda c: [0, 9, c, 0, 0]))
 
 
+def xdev_table():
+    """Transactions of the host with another device on the bus (address = ours XOR k)."""
+    t = []
+    for k in (1, 0x40, 0x2A, 0x7F):
+        for ep in (0, 1, 3):
+            t += [dict(k="xdev", dir="in", ep=ep, xor=k, ack=1, n=n) for n in (0, 7, 30)]
+        t += [dict(k="xdev", dir="in", ep=1, xor=k, ack=0, n=0),
+              dict(k="xdev", dir="out", ep=2, xor=k, n=3), dict(k="xdev", dir="out", ep=0, xor=k, n=0),
+              dict(k="xdev", dir="setup", ep=0, xor=k, req=[0, 5, 0x31 ^ k, 0, 0]),
+              dict(k="xdev", dir="setup", ep=0, xor=k, req=[0, 9, 1 + (k & 3), 0, 0])]
+    return t
+
+
+XDEV = xdev_table()
+
+
 def mid_items():
     probes = [dict(k="probe", addr="dev", ack=1), dict(k="probe", addr="dev", ack=0), dict(k="probe", addr="pending", ack=1)]
-    return st.sampled_from(IN_ONLY + probes * 3)
+    return st.one_of(st.sampled_from(IN_ONLY + probes * 3), st.sampled_from(XDEV))
 
 
 def ctrl_set():
@@ -39,7 +63,14 @@ def ctrl_set():
         noack=weighted([(0, 3), (1, 2)]),
         mid=long_lists(st.tuples(st.integers(0, 2), mid_items()).map(list), max_size=4, average=1.5),
         reset_at=weighted([(None, 12), (0, 1), (1, 1)]),
+        # with a lost status ACK: an other-device transaction right after the un-ACKed status ZLP (before the retry)
+        late=st.one_of(*[st.none()] * 8, st.sampled_from(XDEV)),
     ))
+
+
+def ctrl_done():
+    """A SET_* request that simply succeeds (what makes a later request of the same kind the 2nd, 3rd .. one)."""
+    return set_request().map(lambda r: dict(k="ctrl", req=r, cut=0, noack=0, mid=[], reset_at=None))
 
 
 def ctrl_observe():
@@ -49,6 +80,60 @@ def ctrl_observe():
         dict(k="ctrl", req=[0x80, 6, 0x0100, 0, 18], cut=0, noack=0, mid=[]),
         dict(k="ctrl", req=[0x80, 6, 0x0100, 0, 8], cut=1, noack=0, mid=[]),
     ])
+
+
+# True (development only) / case field "xdev_unrestricted": other-device ACKs are left wherever the strategy put them
+# (the assumption about un-acknowledged data of other IN endpoints is not applied).
+XDEV_UNRESTRICTED = False
+
+# Known finding: the status-stage ZLP of a pending SET_ADDRESS / SET_CONFIGURATION has been transmitted and not ACKed,
+# no token has been addressed to this device since, and the host ACKs ANOTHER DEVICE's data: LUNA takes that ACK (it
+# accepts an ACK arbitrarily long after its data packet) and commits the request.
+KNOWN_SHAPE = "other-device-ack-after-unacked-status-zlp-commits"
+
+
+def request_facts(run):
+    """Was a SET_ADDRESS / SET_CONFIGURATION pending (SETUP seen, status ZLP not yet acknowledged) when the host
+    ACKed data of another endpoint of this device / data of another device; was an earlier transfer abandoned;
+    index (in run.txns) of the first KNOWN_SHAPE event: an other-device ACK while the pending request's status ZLP
+    was the last thing exchanged with this device and had not been ACKed."""
+    pending = False
+    open_transfer = False
+    zlp_unacked = False
+    f = dict(foreign_ack_while_pending=False, other_device_ack_while_pending=False, abandoned_before=False,
+             other_device_ack=False, known_event=None)
+    for n, t in enumerate(run.txns):
+        if t.get("ctx", "").startswith("token for address"):
+            if t.get("xack"):
+                f["other_device_ack"] = True
+                if pending and zlp_unacked:
+                    if f["known_event"] is None:
+                        f["known_event"] = n
+                elif pending:
+                    f["other_device_ack_while_pending"] = True
+            continue
+        if t["kind"] == "sof":
+            continue
+        # a token addressed to this device: whatever was un-acknowledged before is no longer the last exchange
+        zlp_unacked = False
+        if t["kind"] == "setup":
+            if open_transfer:
+                f["abandoned_before"] = True
+            open_transfer = True
+            pending = M.classify_request(tuple(t["req"]), {}, False)["kind"] == "nodata"
+        elif t["ep"] == 0:
+            if t is run.txns[-1] and run.violation is not None:
+                break
+            zlp = t["kind"] == "in" and t["resp"][0] == "data" and not t["resp"][2]
+            if zlp and t["ack"] and pending:
+                pending = open_transfer = False
+            elif zlp and pending:
+                zlp_unacked = True
+            elif (t["kind"] == "out" and t["resp"] == M.ACK) or t["resp"] == M.STALL:
+                open_transfer = False
+        elif t["ack"] and pending:
+            f["foreign_ack_while_pending"] = True
+    return f
 
 
 class AddressConfig(Sub):
@@ -63,15 +148,22 @@ class AddressConfig(Sub):
             "one at another (pending / previous) address must time out; GET_CONFIGURATION reads back the "
             "configuration; oracle = independent device model committing exactly at the host's ACK of that "
             "request's status ZLP; non-trivial = a host ACK of another endpoint's data lies between the SETUP and "
-            "the status stage of a SET_* request")
+            "the status stage of a SET_* request. Transactions of the host with other devices on the bus (IN token "
+            "at address XOR k + the host's ACK of that device's data, OUT / SETUP + data incl. that device's own "
+            "SET_ADDRESS / SET_CONFIGURATION) are mixed in between the transfers and between the stages of a "
+            "transfer, also of the 2nd, 3rd .. request of the same kind; such an ACK counts as non-trivial like "
+            "another endpoint's ACK. An other-device ACK that arrives while the pending request's status ZLP has "
+            "been sent, not ACKed and no token addressed to this device since, is a known finding: the judged "
+            "history ends there (a later divergence gets the signature other-device-ack-after-unacked-status-zlp-"
+            "commits, any divergence before it keeps its own signature)")
 
     def setup(self):
         self.rig = H.rig("full")
 
     def strategy(self):
         top = st.one_of(
-            ctrl_set(), ctrl_set(), ctrl_set(), ctrl_observe(),
-            st.sampled_from(IN_ONLY),
+            ctrl_set(), ctrl_set(), ctrl_set(), ctrl_done(), ctrl_done(), ctrl_observe(),
+            st.sampled_from(IN_ONLY), st.sampled_from(XDEV),
             st.sampled_from([dict(k="reset", n=320), dict(k="reset", n=320), dict(k="reset", n=700), dict(k="reset", n=3),
                              dict(k="reset", n=30)]),
         )
@@ -97,6 +189,12 @@ class AddressConfig(Sub):
                 if it["req"][1] == 5:
                     previous, pending = pending, it["req"][2] & 0x7F
                 it = dict(it, mid=[[p, fix(f)] for p, f in it.get("mid", [])])
+                if it.get("late") and it.get("noack"):
+                    it["mid"] = [[1, it["late"]]] + it["mid"]
+            if any(f.get("k") == "xdev" and f.get("ack") for f in [it] + [f for _, f in it.get("mid") or []]):
+                # the host is about to ACK another device's data: no IN data of the probe endpoint is left un-ACKed
+                # (see ASSUMPTIONS) -- settled BEFORE the transfer so that nothing separates its stages from that ACK
+                b.item(dict(k="probe", addr="dev", ack=1))
             b.item(it)
             # after every step: the device answers at the model's address ...
             b.item(dict(k="probe", addr="dev", ack=pa[k % len(pa)]))
@@ -104,17 +202,45 @@ class AddressConfig(Sub):
             # ... and nowhere else (the pending / previous address is the interesting wrong one)
             b.item(dict(k="probe", addr=pending if k % 2 else previous, ack=pa[k % len(pa)]))
         b.item(dict(k="ctrl", req=[0x80, 8, 0, 0, 1], cut=0, noack=0, mid=[]))
+        if not (XDEV_UNRESTRICTED or case.get("xdev_unrestricted")):
+            # input assumption (see ASSUMPTIONS): no host ACK for another device while a data packet of another IN
+            # endpoint of this device / of an endpoint-0 data stage may be awaiting its ACK (the IN endpoints'
+            # business: C11 / C17 make the same assumption).  A status-stage ZLP is NOT part of this: an other-device
+            # ACK after an un-ACKed status ZLP is generated (KNOWN_SHAPE).
+            unacked = set()
+            for op in b.prog:
+                if op.get("xdev"):
+                    if unacked and op.get("xack"):
+                        op["xack"] = 0
+                elif op["op"] in ("in", "out", "setup", "ping"):
+                    # (a probe at an explicit address may or may not hit this device: it can leave a packet
+                    # un-acknowledged but is not relied upon to settle one)
+                    dev = op.get("addr", "dev") == "dev"
+                    if dev:
+                        unacked.discard(0)
+                    if op["op"] == "in":
+                        if not op.get("ack", 1):
+                            if not (op.get("ep") == 0 and op.get("stage") == "status"):
+                                unacked.add(op["ep"])
+                        elif dev:
+                            unacked.discard(op["ep"])
         return b
 
     def run(self, case):
         b = self.build(case)
         run = H.execute("full", b.prog, **G.env_of(case))
-        facts = G.pending_request_facts(run, b.prog)
+        facts = request_facts(run)
         if run.violation is not None:
             v = run.violation
             sig = G.response_signature(v)
-            if v["cls"] == "response" and facts["foreign_ack_while_pending"]:
+            if facts["known_event"] is not None:
+                # everything up to the event was judged and held; from the event on model and device may differ
+                # because of the known finding, so the rest of the history is attributed to it
+                sig = KNOWN_SHAPE
+            elif v["cls"] == "response" and facts["foreign_ack_while_pending"]:
                 sig = "foreign-ack-completes-pending-request"
+            elif v["cls"] == "response" and facts["other_device_ack_while_pending"]:
+                sig = "other-device-ack-completes-pending-request"
             elif v["cls"] == "response" and facts["abandoned_before"] and v["txn"]["ep"] == 0 and v["txn"]["kind"] != "setup":
                 sig = "stale-request-state-after-abandoned-transfer"
             return fail(v["msg"] + f"  [model address {run.model.addr:#x}, configuration {run.model.config}]", signature=sig)
@@ -136,7 +262,21 @@ class AddressConfig(Sub):
             labels.add("probe-at-wrong-address")
         if facts["foreign_ack_while_pending"]:
             labels.add("foreign-ack-while-pending")
-        return Result(ok=True, nontrivial=facts["foreign_ack_while_pending"], labels=tuple(sorted(labels)))
+        if facts["other_device_ack"]:
+            labels.add("other-device-ack")
+        if facts["known_event"] is not None:
+            labels.add("other-device-ack-after-unacked-status-zlp-without-visible-effect")
+        if facts["other_device_ack_while_pending"]:
+            labels.add("other-device-ack-while-pending")
+            done = {"set_address": 0, "set_configuration": 0}
+            for tr in b.transfers:
+                if tr["name"] in done:
+                    if done[tr["name"]] and any(o.get("xack") for o in b.prog[tr["first"]:tr["last"] + 1]):
+                        labels.add("other-device-ack-inside-repeated-" + tr["name"])
+                    if not tr["abandoned"]:
+                        done[tr["name"]] += 1
+        return Result(ok=True, nontrivial=facts["foreign_ack_while_pending"] or facts["other_device_ack_while_pending"],
+                      labels=tuple(sorted(labels)))
 
 
 SUBS = [AddressConfig()]
